@@ -273,6 +273,53 @@ theorem filtered (s : Sw) (hI : Inv s) (now p : Nat) (x : Frame) (hf : Filtered 
     · exact absurd hf hnf
   · simp [arrive_bad_port s now p x hp, deliveries]
 
+/-- the ideal learning bridge, as a function of the history: filtered → nothing; multicast or unknown → all other ports;
+known → the most recent port of the destination unless that is the ingress (the arriving frame is itself a sighting of its source) -/
+def ideal (s : Sw) (p : Nat) (x : Frame) : List Nat :=
+  if Filtered s.transparent x then []
+  else if isMulticast x.dst = true then s.ports.filter (· ≠ p)
+  else match (if x.src = x.dst then some p else (seenPorts s x.dst).head?) with
+    | none => s.ports.filter (· ≠ p)
+    | some q => if q = p then [] else [q]
+
+theorem outPorts_of_deliveries {evs : List Ev} {l : List Nat} {x : Frame} (h : deliveries evs = l.map fun q => (q, x)) :
+    outPorts evs = l := by
+  simp only [outPorts, h, List.map_map]
+  clear h
+  induction l with
+  | nil => rfl
+  | cons a r ih => simp [ih]
+
+/-- **ideal_when_current**: whenever the frame is not absorbed by a cached flow and the controller's table is current for
+the destination, the loop delivers exactly what the ideal bridge delivers. -/
+theorem ideal_when_current (s : Sw) (hI : Inv s) (now p : Nat) (x : Frame) (hp : p ∈ s.ports)
+    (hl : lookup s.table p x = none) (hfresh : ¬ Stale s x.dst) :
+    outPorts (arrive s now p x).2 = ideal s p x := by
+  unfold ideal
+  by_cases hf : Filtered s.transparent x
+  · rw [if_pos hf]; simp [outPorts, filtered s hI now p x hf]
+  · rw [if_neg hf]
+    by_cases hm : isMulticast x.dst = true
+    · rw [if_pos hm]
+      exact outPorts_of_deliveries (unknown_floods s hI now p x hp hf (.inl hm))
+    · rw [if_neg hm]
+      have hm' : isMulticast x.dst = false := by simpa using hm
+      by_cases hsd : x.src = x.dst
+      · have := known_dst_fresh_partial s hI now p x hfresh hp hf hm' hl (.inr hsd)
+        rw [this]; simp [freshPorts, hsd]
+      · rw [if_neg hsd]
+        cases hh : (seenPorts s x.dst).head? with
+        | none =>
+          have hnil : seenPorts s x.dst = [] := by
+            cases hs : seenPorts s x.dst with
+            | nil => rfl
+            | cons a r => rw [hs] at hh; cases hh
+          exact outPorts_of_deliveries (unknown_floods s hI now p x hp hf (.inr ⟨hnil, hsd⟩))
+        | some q =>
+          have hne : seenPorts s x.dst ≠ [] := by intro h; rw [h] at hh; cases hh
+          have := known_dst_fresh_partial s hI now p x hfresh hp hf hm' hl (.inl hne)
+          rw [this]; simp [freshPorts, hsd, hh]
+
 /-! ## several switches on one clock, joined by links: every switch keeps the invariant and every logged arrival is
 an `arrive` on a state satisfying it, so the per-arrival theorems apply to every hop of a frame through the network -/
 theorem propagate_inv (fuel : Nat) (n : Net) (x : Frame) (q : List (Nat × Nat)) (h : ∀ s ∈ n.sws, Inv s) :
@@ -347,6 +394,8 @@ example : ¬ Filtered demo.transparent (udp fA 0x0c 1) ∧ seenPorts demo 0x0c =
 -- known_dst / known_dst_fresh: A→B on port 3 (A moved) with no cached flow and a current controller table → exactly port 2
 example : isMulticast fB = false ∧ seenPorts demo fB ≠ [] ∧ lookup demo.table 3 (udp fA fB 1) = none ∧ ¬ Stale demo fB ∧
     outPorts (arrive demo 1016000 3 (udp fA fB 1)).2 = [2] := by decide
+example : 3 ∈ demo.ports ∧ lookup demo.table 3 (udp fA fB 1) = none ∧ ¬ Stale demo fB ∧ ideal demo 3 (udp fA fB 1) = [2] ∧
+    ideal demo 1 bcast = [2, 3, 4] ∧ ideal demo 1 stp = [] := by decide
 -- … and towards its own port: dropped, with the short drop entry installed
 example : outPorts (arrive demo 1016000 2 (udp fA fB 1)).2 = [] ∧ (arrive demo 1016000 2 (udp fA fB 1)).1.table.length = 1 := by decide
 -- filtered
